@@ -18,6 +18,7 @@ import (
 	"runtime/debug"
 	"sort"
 	"strings"
+	"sync"
 	"time"
 
 	"github.com/eclipse/paho.mqtt.golang/packets"
@@ -426,6 +427,8 @@ func DefaultReqs(g *Gen, kind string, doc interface{}) []Req {
 		{Method: "OPTIONS", Path: "/a", Headers: [][2]string{{"Origin", "http://a"}, {"Access-Control-Request-Method", "GET"}}, Resp: 1},
 		{Method: "GET", Path: "", Resp: 0},
 		{Method: "HEAD", Path: "/", Headers: [][2]string{{"Cookie", "a=b"}}, Resp: 1},
+		{Method: "GET", Path: "/a", Resp: 0, Cancel: 1},
+		{Method: "POST", Path: "/fail", Body: "hello", Resp: 0, Cancel: 1},
 	}
 	if kind == "Proxy" || kind == "Pipeline" || kind == "GlobalFilter" {
 		reqs = append(reqs, ProxyReqs()...)
@@ -501,10 +504,20 @@ func NewHTTPContext(rq Req) *context.Context {
 	}
 	// a deadline bounds configured waits (Mock delay, RateLimiter timeout): waiting is not part of the property
 	dctx, cancel := stdcontext.WithTimeout(stdcontext.Background(), 150*time.Millisecond)
-	_ = cancel
 	stdr, err := http.NewRequestWithContext(dctx, rq.Method, "http://example.com"+rq.Path, body)
 	if err != nil {
 		return nil
+	}
+	switch rq.Cancel {
+	case 1:
+		cancel()
+	case 2:
+		cancelMu.Lock()
+		cancelSeq++
+		id := fmt.Sprint(cancelSeq)
+		cancels[id] = cancel
+		cancelMu.Unlock()
+		stdr.Header.Set("X-Verif-Cancel", id)
 	}
 	for _, h := range rq.Headers {
 		if h[0] == "Host" {
@@ -646,11 +659,28 @@ func NewContextFor(doc interface{}, rq Req) (ctx *context.Context) {
 	return ctx
 }
 
+var (
+	cancelMu  sync.Mutex
+	cancelSeq int
+	cancels   = map[string]stdcontext.CancelFunc{}
+)
+
 // stubbed backend transport of the Proxy filter
 func stubSend(r *http.Request, _ *http.Client) (*http.Response, error) {
 	if r.Body != nil {
 		io.Copy(io.Discard, r.Body)
 		r.Body.Close()
+	}
+	if id := r.Header.Get("X-Verif-Cancel"); id != "" {
+		// the client goes away while the first attempt is in flight
+		cancelMu.Lock()
+		c := cancels[id]
+		delete(cancels, id)
+		cancelMu.Unlock()
+		if c != nil {
+			c()
+			return nil, stdcontext.Canceled
+		}
 	}
 	if strings.Contains(r.URL.Path, "fail") {
 		return nil, errors.New("verif: stubbed transport failure")
